@@ -21,6 +21,7 @@ use alpenglow::disseminator::rotor::sampling_strategy::{
     IidQuorumSampler, PartitionSampler, QuorumSamplingStrategy, SamplingStrategy,
     StakeWeightedSampler, TurbineSampler, UniformSampler,
 };
+use alpenglow::disseminator::turbine::VerifWeightedShuffle;
 use alpenglow::network::localhost_ip_sockaddr;
 use alpenglow::{Stake, ValidatorIndex, ValidatorInfo};
 use rand::prelude::*;
@@ -250,7 +251,7 @@ fn run_group(s: &Strat, stakes: &[u64], k: usize, seeds: &[u64]) -> Group {
     };
     // an instance that panicked inside a draw is replaced by a fresh one (a panic ends the
     // process in production; whatever state it leaves behind is not judged)
-    let mut draw_fresh = |s: &mut AnySampler, seed: u64| -> Run {
+    let draw_fresh = |s: &mut AnySampler, seed: u64| -> Run {
         let r = draw(s, seed);
         if !r.ok {
             if let Ok(n) = build() {
@@ -271,6 +272,71 @@ fn run_group(s: &Strat, stakes: &[u64], k: usize, seeds: &[u64]) -> Group {
         draws.push((seed, [r0, r1, r2]));
     }
     Group { cpanic: None, draws }
+}
+
+// ------------------------------------------------------------------ weighted shuffle
+
+/// Random source of Turbine's tree construction (`TurbineTree::new`): "ALPENGLOWTURBINE",
+/// slot, shred index as big-endian words; slot = seed, shred = 0.
+fn turbine_rng(seed: u64) -> StdRng {
+    let bytes = [&b"ALPENGLOWTURBINE"[..], &seed.to_be_bytes()[..], &0usize.to_be_bytes()[..]].concat();
+    StdRng::from_seed(bytes.try_into().expect("32 bytes"))
+}
+
+struct ShuffleDraw {
+    seed: u64,
+    /// size of the partial draw
+    m: usize,
+    /// full / again: two instances, same seed; part + cont: m, then the rest with the same
+    /// source; part2 + rest2: m, then the rest with another source
+    runs: [Run; 6],
+}
+
+const SHUFFLE_FIELDS: [&str; 6] = ["full", "again", "part", "cont", "part2", "rest2"];
+
+impl ShuffleDraw {
+    fn to_json(&self) -> Value {
+        let mut o = serde_json::Map::new();
+        o.insert("seed".into(), json!(self.seed));
+        o.insert("m".into(), json!(self.m));
+        for (f, r) in SHUFFLE_FIELDS.iter().zip(&self.runs) {
+            o.insert((*f).into(), r.to_json());
+        }
+        Value::Object(o)
+    }
+}
+
+fn shuffle_run(ws: &mut VerifWeightedShuffle, rng: &mut StdRng, max: usize) -> Run {
+    match catch_unwind(AssertUnwindSafe(|| ws.draw(rng, max))) {
+        Ok(c) => Run { ok: true, c: c.into_iter().map(|v| v as u64).collect(), panic: String::new() },
+        Err(e) => Run { ok: false, c: Vec::new(), panic: panic_msg(e) },
+    }
+}
+
+/// Builds four shuffles per seed (a shuffle is consumed by drawing) and draws as described
+/// at `ShuffleDraw`. A panic of `WeightedShuffle::new` is the group's construction panic.
+fn run_shuffle(stakes: &[u64], seeds: &[u64]) -> (Option<String>, Vec<ShuffleDraw>) {
+    let n = stakes.len();
+    let build = || catch_unwind(AssertUnwindSafe(|| VerifWeightedShuffle::new(stakes)));
+    let mut draws = Vec::new();
+    for seed in seeds {
+        let (mut a, mut b, mut c, mut d) = match (build(), build(), build(), build()) {
+            (Ok(a), Ok(b), Ok(c), Ok(d)) => (a, b, c, d),
+            (Err(e), ..) | (_, Err(e), ..) | (_, _, Err(e), _) | (_, _, _, Err(e)) => {
+                return (Some(panic_msg(e)), Vec::new());
+            }
+        };
+        let m = n * ((*seed as usize % 3) + 1) / 4;
+        let full = shuffle_run(&mut a, &mut turbine_rng(*seed), usize::MAX);
+        let again = shuffle_run(&mut b, &mut turbine_rng(*seed), usize::MAX);
+        let mut rng = turbine_rng(*seed);
+        let part = shuffle_run(&mut c, &mut rng, m);
+        let cont = shuffle_run(&mut c, &mut rng, usize::MAX);
+        let part2 = shuffle_run(&mut d, &mut turbine_rng(*seed), m);
+        let rest2 = shuffle_run(&mut d, &mut turbine_rng(seed.wrapping_add(1000)), usize::MAX);
+        draws.push(ShuffleDraw { seed: *seed, m, runs: [full, again, part, cont, part2, rest2] });
+    }
+    (None, draws)
 }
 
 // ------------------------------------------------------------------ report
@@ -357,6 +423,7 @@ struct Table {
     decaying: Vec<String>,
     fa1_exact: Vec<String>,
     partition_fallback: Vec<String>,
+    shuffles: Vec<String>,
     all: Vec<String>,
 }
 
@@ -375,6 +442,7 @@ fn replay_cases(path: &str, seeds_per_case: u64, infeasible_every: u64) -> anyho
         decaying: strs(&t["decaying"]),
         fa1_exact: strs(&t["fa1Exact"]),
         partition_fallback: strs(&t["partitionFallback"]),
+        shuffles: strs(&t["shuffles"]),
         all: strs(&t["all"]),
     };
     let cases = load_tagged(path, "CASE")?;
@@ -404,6 +472,62 @@ fn replay_cases(path: &str, seeds_per_case: u64, infeasible_every: u64) -> anyho
         // a validator without residual (owed seats, exact multiple) next to one with a residual
         if min.iter().zip(&bnd).any(|(m, b)| *m > 0 && *b) && bnd.iter().any(|b| !*b) {
             rep.count("case.exact_next_to_residual", 1);
+        }
+        // the weighted shuffle depends on the stake vector only: once per vector (its k = 1 copy)
+        if k == 1 {
+            anyhow::ensure!(table.shuffles.iter().any(|x| x == "weighted_shuffle"), "weighted_shuffle unknown to the spec");
+            let npos = case["npos"].as_u64().unwrap() as usize;
+            let label = "weighted_shuffle";
+            rep.count("strategy.weighted_shuffle", 1);
+            let (cpanic, draws) = run_shuffle(&stakes, &seeds);
+            let replay = |seed: u64| json!({"case": case, "strategy": label, "seed": seed,
+                "rerun": replay_cmd(label, &stakes, 1, seed)});
+            if let Some(msg) = &cpanic {
+                rep.diverge(&format!("{label}:Constructible:{}:{}", slug(msg), size_class(n)), "Constructible",
+                    replay(0), json!({"panic": msg}));
+            }
+            for d in &draws {
+                rep.draws += 1;
+                let obs = d.to_json();
+                let [full, again, part, cont, part2, rest2] = &d.runs;
+                if let Some(r) = d.runs.iter().find(|r| !r.ok) {
+                    rep.diverge(&format!("{label}:Returns:{}", slug(&r.panic)), "Returns", replay(d.seed), obs.clone());
+                    continue;
+                }
+                let mut failed: Vec<&str> = Vec::new();
+                let mut sorted = full.c.clone();
+                sorted.sort();
+                if sorted != (0..n as u64).collect::<Vec<_>>() {
+                    failed.push("ShufflePermutation");
+                }
+                if full.c.iter().take(npos).any(|v| (*v as usize) < n && zero[*v as usize]) {
+                    failed.push("ShuffleZerosLast");
+                }
+                if full.c != again.c {
+                    failed.push("Determinism");
+                }
+                let pre = &full.c[..d.m.min(full.c.len())];
+                if part.c != pre || part2.c != pre {
+                    failed.push("ShufflePrefix");
+                }
+                if [part.c.clone(), cont.c.clone()].concat() != full.c {
+                    failed.push("ShuffleContinues");
+                }
+                let mut both = [part2.c.clone(), rest2.c.clone()].concat();
+                both.sort();
+                if both != (0..n as u64).collect::<Vec<_>>() {
+                    failed.push("ShuffleRemoves");
+                }
+                let drawn_pos = part2.c.iter().filter(|v| (**v as usize) < n && !zero[**v as usize]).count();
+                if rest2.c.iter().take(npos.saturating_sub(drawn_pos)).any(|v| (*v as usize) < n && zero[*v as usize]) {
+                    failed.push("ShuffleZerosLast");
+                }
+                failed.sort();
+                failed.dedup();
+                for p in failed {
+                    rep.diverge(&format!("{label}:{p}"), p, replay(d.seed), obs.clone());
+                }
+            }
         }
         let decays: Vec<(u64, u64)> = case["decay"].as_array().unwrap().iter()
             .map(|d| (d["num"].as_u64().unwrap(), d["den"].as_u64().unwrap())).collect();
@@ -579,6 +703,17 @@ fn gen_stakes(kind: &str, n: usize, gseed: u64, param: u64) -> Vec<u64> {
             st[0] = (n as u64 - 1).max(1);
             st
         }
+        // heavy tail capped at `param`, about one in eight validators without stake
+        "skewzero" => {
+            let mut st: Vec<u64> = (0..n)
+                .map(|_| if rng.random_range(0..8u32) == 0 { 0 } else { pareto(&mut rng, param as f64) })
+                .collect();
+            if n > 0 && st.iter().all(|s| *s == 0) {
+                st[0] = 1;
+            }
+            st
+        }
+        "allzero" => vec![0; n],
         // validator 0 holds `param`, everybody else a single-digit stake
         "whale" => {
             let mut st: Vec<u64> = (0..n).map(|_| rng.random_range(1..=9u64)).collect();
@@ -692,10 +827,7 @@ fn record(dir: &str, tier: &str, seed: u64, chunk_weight: u64) -> anyhow::Result
     let thorough = tier == "thorough";
     let seeds: Vec<u64> = if thorough { vec![1, 2, 3, 4, 5] } else { vec![1, 2, 3] };
     let turbine_max_n = if thorough { 200 } else { 65 };
-    let mut chunks: Vec<Value> = Vec::new();
-    let mut cur: Option<std::io::BufWriter<std::fs::File>> = None;
-    let mut cur_weight = 0u64;
-    let mut cur_events = 0u64;
+    let mut out = ChunkWriter::new(dir, chunk_weight);
     let mut id = 0u64;
     let mut hist: BTreeMap<String, u64> = BTreeMap::new();
     let mut total_draws = 0u64;
@@ -734,30 +866,106 @@ fn record(dir: &str, tier: &str, seed: u64, chunk_weight: u64) -> anyhow::Result
                         "seed": seed, "runs": runs.iter().map(Run::to_json).collect::<Vec<_>>()})).collect::<Vec<_>>(),
                 });
                 let w = 20 + if small { n as u64 } else { 0 } + (g.draws.len() * 3 * k) as u64;
-                if cur.is_none() || cur_weight + w > chunk_weight {
-                    if let Some(mut f) = cur.take() {
-                        f.flush()?;
-                        chunks.last_mut().unwrap()["events"] = json!(cur_events);
-                    }
-                    let path = format!("{dir}/trace-{:03}.ndjson", chunks.len());
-                    cur = Some(std::io::BufWriter::new(std::fs::File::create(&path)?));
-                    chunks.push(json!({"path": path, "events": 0}));
-                    cur_weight = 0;
-                    cur_events = 0;
-                }
-                let f = cur.as_mut().unwrap();
-                serde_json::to_writer(&mut *f, &ev)?;
-                f.write_all(b"\n")?;
-                cur_weight += w;
-                cur_events += 1;
+                out.write(&ev, w)?;
             }
         }
     }
-    if let Some(mut f) = cur.take() {
-        f.flush()?;
-        chunks.last_mut().unwrap()["events"] = json!(cur_events);
+
+    // ---- weighted shuffle: every validator count of the range, equal and skewed stakes
+    let shuffle_seeds: Vec<u64> = if thorough { vec![1, 2, 3] } else { vec![1, 2] };
+    let mut shuffle_plan: Vec<Dist> = Vec::new();
+    let g = seed.wrapping_mul(1000) + 300;
+    let mut counts: Vec<usize> = (1..=300).collect();
+    if thorough {
+        counts.extend(4090..=4120);
     }
+    for &n in &counts {
+        shuffle_plan.push(Dist { kind: "equal", n, gseed: g, param: 1 + (n as u64 % 5) });
+        shuffle_plan.push(Dist { kind: "skewzero", n, gseed: g, param: 30_000 });
+    }
+    for &n in &[1usize, 2, 17, 300] {
+        shuffle_plan.push(Dist { kind: "allzero", n, gseed: g, param: 0 });
+    }
+    if thorough {
+        shuffle_plan.extend(plan(tier, seed).into_iter().map(|(d, _)| d));
+    }
+    for d in shuffle_plan {
+        let stakes = gen_stakes(d.kind, d.n, d.gseed, d.param);
+        let n = stakes.len();
+        max_n = max_n.max(n);
+        let total: u128 = stakes.iter().map(|s| *s as u128).sum();
+        let small = total < (1u128 << 31);
+        let zeros: Vec<u64> = (0..n as u64).filter(|v| stakes[*v as usize] == 0).collect();
+        let (cpanic, draws) = run_shuffle(&stakes, &shuffle_seeds);
+        id += 1;
+        *hist.entry("strategy.weighted_shuffle".to_string()).or_default() += 1;
+        *hist.entry(format!("shuffle.dist.{}", d.kind)).or_default() += 1;
+        if !zeros.is_empty() && zeros.len() < n {
+            *hist.entry("shuffle.mixed_zero".to_string()).or_default() += 1;
+        }
+        if cpanic.is_some() {
+            *hist.entry("construct_panic".to_string()).or_default() += 1;
+        }
+        total_draws += draws.len() as u64;
+        let ev = json!({
+            "id": id, "strategy": "weighted_shuffle", "label": "weighted_shuffle", "n": n, "k": n, "small": small,
+            "stakes": if small { json!(stakes) } else { json!([]) },
+            "zeros": zeros, "npos": n - zeros.len(), "num": 0, "den": 1,
+            "cpanic": cpanic.is_some(), "cmsg": cpanic.clone().unwrap_or_default(),
+            "gen": {"kind": d.kind, "n": d.n, "gseed": d.gseed.to_string(), "param": d.param.to_string()},
+            "draws": draws.iter().map(ShuffleDraw::to_json).collect::<Vec<_>>(),
+        });
+        let w = 20 + (n as u64) * (1 + 4 * draws.len() as u64);
+        out.write(&ev, w)?;
+    }
+    let chunks = out.finish()?;
     Ok(json!({"chunks": chunks, "events": id, "draws": total_draws, "hist": hist, "max_n": max_n}))
+}
+
+/// NDJSON chunks of bounded weight (one TLC run each).
+struct ChunkWriter {
+    dir: String,
+    chunk_weight: u64,
+    chunks: Vec<Value>,
+    cur: Option<std::io::BufWriter<std::fs::File>>,
+    cur_weight: u64,
+    cur_events: u64,
+}
+
+impl ChunkWriter {
+    fn new(dir: &str, chunk_weight: u64) -> Self {
+        Self { dir: dir.to_string(), chunk_weight, chunks: Vec::new(), cur: None, cur_weight: 0, cur_events: 0 }
+    }
+
+    fn close(&mut self) -> anyhow::Result<()> {
+        if let Some(mut f) = self.cur.take() {
+            f.flush()?;
+            self.chunks.last_mut().unwrap()["events"] = json!(self.cur_events);
+        }
+        Ok(())
+    }
+
+    fn write(&mut self, ev: &Value, w: u64) -> anyhow::Result<()> {
+        if self.cur.is_none() || self.cur_weight + w > self.chunk_weight {
+            self.close()?;
+            let path = format!("{}/trace-{:03}.ndjson", self.dir, self.chunks.len());
+            self.cur = Some(std::io::BufWriter::new(std::fs::File::create(&path)?));
+            self.chunks.push(json!({"path": path, "events": 0}));
+            self.cur_weight = 0;
+            self.cur_events = 0;
+        }
+        let f = self.cur.as_mut().unwrap();
+        serde_json::to_writer(&mut *f, ev)?;
+        f.write_all(b"\n")?;
+        self.cur_weight += w;
+        self.cur_events += 1;
+        Ok(())
+    }
+
+    fn finish(mut self) -> anyhow::Result<Vec<Value>> {
+        self.close()?;
+        Ok(self.chunks)
+    }
 }
 
 // ------------------------------------------------------------------ code -> spec: join verdicts
@@ -785,6 +993,16 @@ fn judge(pairs: &str) -> anyhow::Result<Value> {
             rep.cases += 1;
             rep.count(&format!("strategy.{label}"), 1);
             let ndraws = ev["draws"].as_array().map(|a| a.len()).unwrap_or(0) as u64;
+            if label == "weighted_shuffle" {
+                let z = ev["zeros"].as_array().map(|a| a.len()).unwrap_or(0) as u64;
+                if z > 0 && z < ev["n"].as_u64().unwrap() {
+                    rep.count("shuffle.mixed_zero", 1);
+                }
+                let n = ev["n"].as_u64().unwrap();
+                if (17..=31).contains(&n) || (257..=271).contains(&n) {
+                    rep.count("shuffle.above_fanout_power", 1);
+                }
+            }
             rep.draws += ndraws.max(1);
             if ev["small"].as_bool() == Some(true) {
                 rep.count("events.small", 1);
@@ -817,7 +1035,11 @@ fn judge(pairs: &str) -> anyhow::Result<Value> {
                     let dr = &ev["draws"][d - 1];
                     let seed = dr["seed"].as_u64().unwrap();
                     let fp = if p == "Returns" {
-                        let msg = dr["runs"].as_array().unwrap().iter()
+                        let runs: Vec<&Value> = match dr["runs"].as_array() {
+                            Some(a) => a.iter().collect(),
+                            None => SHUFFLE_FIELDS.iter().map(|f| &dr[*f]).collect(),
+                        };
+                        let msg = runs.iter()
                             .find(|r| r["ok"].as_bool() == Some(false))
                             .and_then(|r| r["panic"].as_str()).unwrap_or("");
                         format!("{label}:{p}:{}", slug(msg))
@@ -866,6 +1088,12 @@ pub fn run(args: &[String], seed: u64) -> anyhow::Result<Value> {
     }
     if let Some(pairs) = arg("--judge") {
         return judge(&pairs);
+    }
+    if arg("--one").as_deref() == Some("weighted_shuffle") {
+        let stakes: Vec<u64> = arg("--stakes").expect("--stakes").split(',').map(|x| x.parse().unwrap()).collect();
+        let (cpanic, draws) = run_shuffle(&stakes, &[seed]);
+        return Ok(json!({"strategy": "weighted_shuffle", "seed": seed, "stakes": stakes,
+            "construct_panic": cpanic, "draws": draws.iter().map(ShuffleDraw::to_json).collect::<Vec<_>>()}));
     }
     if let Some(label) = arg("--one") {
         let s = parse_label(&label);
